@@ -176,7 +176,9 @@ fn gen_unit_raw(prop: &str, tier: Tier, rng: &mut Rng) -> Vec<Case> {
             vec![base_case(prop, "solve", Knobs::random(rng), br, ops, checks)]
         }
         "C03" => {
-            let sw = Swarm::draw(rng, &general_pool(), th);
+            let mut sw = Swarm::draw(rng, &general_pool(), th);
+            // the dedicated slice for aliasing inside one constraint (open finding KF-006 for element)
+            sw.alias = rng.chance(0.03);
             let (vars, cons) = gen_model(rng, &sw);
             let mut ops = model_ops(&vars, &cons);
             ops.push(Op::Iterate { max: usize::MAX, interrupt: None });
@@ -335,6 +337,14 @@ fn gen_unit_raw(prop: &str, tier: Tier, rng: &mut Rng) -> Vec<Case> {
             }
             vec![base_case(prop, "posting", Knobs::random(rng), BrancherSpec::Sched { mode: 0, seed: 1 }, ops, checks)]
         }
+        "C16" => {
+            let (vars, cons) = gen_magnitude_model(rng);
+            let mut ops = model_ops(&vars, &cons);
+            ops.push(final_solve_op(rng, &vars, &[0, 1, 1, 1]));
+            let mut knobs = Knobs::random(rng);
+            knobs.uip = true;
+            vec![base_case(prop, "magnitude", knobs, BrancherSpec::random_sched(rng), ops, checks)]
+        }
         "C17" => {
             let mut sw = Swarm::draw(rng, &general_pool(), th);
             sw.max_space = 4_000;
@@ -429,6 +439,87 @@ pub fn gen_scheduling_model(rng: &mut Rng, th: bool) -> (Vec<VarDecl>, Vec<Con>)
                 Pred { var: b, k: *rng.pick(&[Pk::Eq, Pk::Ge, Pk::Le]), val: *rng.pick(&vars[b].values) },
             ]),
             _ => Con::BinNe(View::plain(a), View::plain(b)),
+        };
+        cons.push(c);
+    }
+    (vars, cons)
+}
+
+const BIG: [i64; 12] = [1 << 30, (1 << 30) + 7, (1 << 31) - 1, 715_827_882, 1 << 16, (1 << 16) + 1, 46_341, 46_340, 1 << 20, 3, 1, 0];
+
+fn bigval(rng: &mut Rng) -> i32 {
+    let m = *rng.pick(&BIG) + rng.range(-2, 2);
+    let m = m.clamp(-(i32::MAX as i64), i32::MAX as i64);
+    (if rng.chance(0.5) { -m } else { m }) as i32
+}
+
+/// The magnitude swarm of C16: every *declared* quantity (domain bounds, view images of domain
+/// values, right-hand sides, coefficients) fits 32 bits - that is what "admitted" means - while
+/// sums and products of them do not. Magnitude comes from narrow intervals at large offsets and
+/// sparse domains whose values lie within a few units of a large base (a sparse domain with a
+/// huge gap never finishes constructing: a cost, not a correctness matter).
+pub fn gen_magnitude_model(rng: &mut Rng) -> (Vec<VarDecl>, Vec<Con>) {
+    let n = rng.range(2, 4) as usize;
+    let mut vars: Vec<VarDecl> = vec![];
+    for _ in 0..n {
+        let d = match rng.below(3) {
+            0 => {
+                let base = (bigval(rng) as i64).clamp(-(i32::MAX as i64) + 20, i32::MAX as i64 - 20);
+                VarDecl::sparse((0..rng.range(1, 3)).map(|_| (base + rng.range(-8, 8)) as i32).collect())
+            }
+            1 => {
+                let lo = (bigval(rng) as i64).min(i32::MAX as i64 - 3);
+                VarDecl::interval(lo as i32, (lo + rng.range(0, 2)) as i32)
+            }
+            _ => {
+                let lb = rng.range32(-3, 2);
+                VarDecl::interval(lb, lb + rng.range32(0, 3))
+            }
+        };
+        vars.push(d);
+    }
+    let fits = |v: &View, vars: &[VarDecl]| vars[v.var].values.iter().all(|x| v.eval_value(*x).abs() <= i32::MAX as i128);
+    let view = |rng: &mut Rng, vars: &[VarDecl]| -> View {
+        loop {
+            let scale = if rng.chance(0.6) { 1 } else { *rng.pick(&[-1, 2, -2, 3, -3, 1 << 15, 1 << 16]) };
+            let off = if rng.chance(0.7) {
+                0
+            } else if rng.chance(0.5) {
+                rng.range32(-3, 3)
+            } else {
+                bigval(rng)
+            };
+            let v = View { var: rng.below(vars.len()), scale, off };
+            if fits(&v, vars) {
+                return v;
+            }
+        }
+    };
+    let mut cons = vec![];
+    for _ in 0..rng.range(1, 2) {
+        let k = rng.range(1, 3) as usize;
+        let c = match rng.below(8) {
+            0 => Con::LinLe((0..k).map(|_| view(rng, &vars)).collect(), bigval(rng)),
+            1 => Con::LinEq((0..k).map(|_| view(rng, &vars)).collect(), bigval(rng)),
+            2 => Con::LinNe((0..k).map(|_| view(rng, &vars)).collect(), bigval(rng)),
+            3 => Con::Times(view(rng, &vars), view(rng, &vars), view(rng, &vars)),
+            4 => {
+                let y = view(rng, &vars);
+                if vars[y.var].values.iter().any(|x| y.eval_value(*x) == 0) {
+                    continue;
+                }
+                Con::Div(view(rng, &vars), y, view(rng, &vars))
+            }
+            5 => Con::Abs(view(rng, &vars), view(rng, &vars)),
+            6 => Con::Max((0..k.min(2)).map(|_| view(rng, &vars)).collect(), view(rng, &vars)),
+            _ => {
+                // element with index / array / rhs sharing a variable is an open finding (KF-006)
+                let c = Con::Element(View::plain(rng.below(vars.len())), (0..k.min(2)).map(|_| view(rng, &vars)).collect(), view(rng, &vars));
+                if c.has_alias() {
+                    continue;
+                }
+                c
+            }
         };
         cons.push(c);
     }
